@@ -146,6 +146,8 @@ let run_reg line =
   let rec apply spec =
     match S.split_on_char ':' spec with
     | ["W"; r; v] -> step (wr !s (L.nth regs_all (int_of_string r)) (int_to_n (int_of_string v)))
+    | ["B"; r; v] -> let rg = L.nth regs_all (int_of_string r) in
+                     step (wr !s rg (BinNat.N.coq_lor ((!s).rg rg) (int_to_n (int_of_string v))))
     | ["L"] -> step (cls !s)
     | ["O"] -> step (pop !s)
     | ["Z"] -> show !s []
